@@ -449,6 +449,20 @@ def deep_use_cases(push):
     return out
 
 
+def if_split_shader(ret_a, ret_b):
+    """`if c { ha(); } else { hb(); }` (also nested one level down and after a switch default): each helper is the only route to its buffer"""
+    S = _base([])
+    for j, nm_ in enumerate(("ba", "bb", "bc", "bd")):
+        S["globals"].append({"name": nm_, "space": "storage_rw", "group": "0", "binding": str(j), "ty": {"k": "array", "n": 4, "e": {"k": "scalar", "s": "u32"}}})
+    S["functions"] = [{"name": "ha", "ret": ret_a, "body": [{"k": "access", "g": "ba", "how": "store"}]}, {"name": "hb", "ret": ret_b, "body": [{"k": "access", "g": "bb", "how": "store"}]},
+                      {"name": "hc", "ret": False, "body": [{"k": "access", "g": "bc", "how": "store"}]}, {"name": "hd", "ret": False, "body": [{"k": "access", "g": "bd", "how": "store"}]}]
+    S["entries"].append({"name": "main", "stage": "compute", "params": [], "wg": ["1"], "body": [
+        {"k": "block", "ctx": "if_split", "items": [{"k": "call", "f": "ha", "expr": ret_a}, {"k": "call", "f": "hb", "expr": ret_b}]},
+        {"k": "block", "ctx": "loop_body", "items": [{"k": "block", "ctx": "if_split", "items": [{"k": "call", "f": "ha", "expr": ret_a}, {"k": "call", "f": "hc", "expr": False}]}]},
+        {"k": "block", "ctx": "switch_after_default", "items": [{"k": "call", "f": "hd", "expr": False}]}]})
+    return S
+
+
 def many_function_cases():
     out = []
     for nfn, users in ((140, (3, 131)), (300, (5, 133, 261)), (260, (0, 128, 256, 259)), (520, (7, 263, 519))):
